@@ -3,6 +3,7 @@ import Gv.Proofs.BagRefExt
 import Gv.Proofs.BagRefExt2
 import Gv.Proofs.BagRefExt3
 import Gv.Proofs.BagRefExt4
+import Gv.Proofs.BagSitesAgree
 /-!
 Names stay pairwise distinct (C01): every operation other than the caller's own name edits
 (`Rename`, `RenameRegexp`, `AppendSeqIdentifier`, `CleanNames`, `TrimNames`, `TrimNamesAuto`) keeps the names of a
